@@ -175,6 +175,43 @@ pub fn cfgs(tier: &str) -> Vec<Cfg> {
             ..Default::default()
         },
     ];
+    // seeded random settings on top of the hand-picked ones: legacy mod bits, a clock rate, overrides anywhere in the setters'
+    // range with either with_mods flag, hard-rock offsets and the score origin, each set or not (VERIF_SEED picks them)
+    {
+        use rand::{rngs::StdRng, Rng, SeedableRng};
+        let seed: u64 = std::env::var("VERIF_SEED").ok().and_then(|s| s.parse().ok()).unwrap_or(0);
+        let mut rng = StdRng::seed_from_u64(seed ^ 0x5e77_1e95);
+        for _ in 0..(if tier == "thorough" { 24 } else { 4 }) {
+            let mut mods = 0u32;
+            for bit in [1u32, 4, 8, 32, 128, 1024, 4096, 8192, 1 << 30] {
+                if rng.gen_range(0..5) == 0 {
+                    mods |= bit;
+                }
+            }
+            mods |= [0u32, 0, 2, 16][rng.gen_range(0..4)];
+            mods |= [0u32, 0, 64, 256, 64 | 512][rng.gen_range(0..5)];
+            if mods & 128 != 0 {
+                mods &= !8192;
+            }
+            let mut attr = |rng: &mut StdRng| -> Option<(f32, bool)> {
+                (rng.gen_range(0..10) < 3).then(|| {
+                    let v = if rng.gen_bool(0.5) { rng.gen_range(0..=22) as f32 * 0.5 } else { rng.gen_range(-40..=40) as f32 * 0.5 };
+                    (v, rng.gen_bool(0.5))
+                })
+            };
+            v.push(Cfg {
+                mods,
+                clock_rate: [None, None, Some(0.5), Some(0.66), Some(0.8), Some(1.25), Some(1.73), Some(2.0)][rng.gen_range(0..8)],
+                ar: attr(&mut rng),
+                cs: attr(&mut rng),
+                hp: attr(&mut rng),
+                od: attr(&mut rng),
+                hr_offsets: (rng.gen_range(0..5) == 0).then(|| rng.gen_bool(0.5)),
+                lazer: (rng.gen_range(0..10) < 3).then(|| rng.gen_bool(0.5)),
+                ..Default::default()
+            });
+        }
+    }
     if tier == "thorough" {
         v.extend([
             c(HT, None),
